@@ -54,7 +54,7 @@ func (cs *caseState) missingReads() {
 	if panicked, _, _ := harness.Safe(func() { c, err = ucfg.NewFrom(V.ToGo(), baseOpts(cs.base)...) }); panicked || err != nil {
 		return
 	}
-	ps := ucfg.PathSep(".")
+	ps := cs.ps()
 	deeper := [][]seg{{{key: "zz_x"}}, {{key: "zz_x"}, {key: "zz_y"}}, {{idx: 0, isIdx: true}}, {{idx: 1, isIdx: true}, {key: "zz_x"}}}
 	for n := 0; n < missingReadsPerCase; n++ {
 		var m missingRead
@@ -88,7 +88,7 @@ func (cs *caseState) missingReads() {
 			j := 1 + r.Intn(len(m.holder))
 			var ch *ucfg.Config
 			var cerr error
-			if panicked, _, _ := harness.Safe(func() { ch, cerr = c.Child(pathStr(full[:j]), -1, ps) }); !panicked && cerr == nil && ch != nil {
+			if panicked, _, _ := harness.Safe(func() { ch, cerr = c.Child(cs.rd(pathStr(full[:j])), -1, ps) }); !panicked && cerr == nil && ch != nil {
 				cfg, rel, form = ch, full[j:], "via-child"
 			}
 		}
@@ -99,7 +99,7 @@ func (cs *caseState) missingReads() {
 		}
 		g := getters[r.Intn(len(getters))]
 		var gerr error
-		panicked, pv, where := harness.Safe(func() { gerr = g.f(cfg, name, idx, ps) })
+		panicked, pv, where := harness.Safe(func() { gerr = g.f(cfg, cs.rd(name), idx, ps) })
 		res.Eval(1)
 		res.Ev("missing_reads", 1)
 		res.SetAdd("missing_read_class_x_form", m.class+"|"+form)
@@ -143,6 +143,11 @@ func (cs *caseState) missingReads() {
 							dev = "middle-of-path-dropped"
 						}
 					}
+				}
+			}
+			for _, a := range accept {
+				if spelledWith(msg, a, cs.sep) {
+					dev = "path-spelled-with-read-separator"
 				}
 			}
 			res.Violate("error-names-wrong-path:missing-read:"+m.class+":"+depth+":"+strings.TrimSuffix(form, "+idx")+":"+dev,
